@@ -242,6 +242,12 @@ func validateVisitGroupField(fieldDef *datadictionary.FieldDef, fieldStack []Tag
 
 		// Start of repeating group.
 		if int(fieldStack[0].tag) == fieldDef.Fields[0].Tag() {
+			// A new entry starts: the required members of the previous entry that have not been seen are missing.
+			for _, childDef := range childDefs {
+				if childDef.Required() {
+					return fieldStack, RequiredTagMissing(Tag(childDef.Tag()))
+				}
+			}
 			childDefs = fieldDef.Fields
 			groupCount++
 		}
